@@ -16,6 +16,7 @@ DEEP = [
     ('creating', 'schedule', 'unschedule', 'cancel_group'),
     ('schedule', 'complete', 'complete', 'schedule'),       # duplicate completion, then the child
     ('creating', 'u2_create', 'u2_jobs', 'u2_commit'),      # update committed while a parent is Creating
+    ('creating', 'u2_create', 'u2_jobs', 'u2_commit', 'complete'),
     ('schedule', 'u2_create', 'u2_jobs', 'u2_commit'),      # ... while a parent is Running
     ('schedule', 'u2_create', 'u2_jobs', 'complete', 'u2_commit'),
     ('schedule', 'complete', 'u2_create', 'u2_jobs', 'u2_commit'),   # parent already terminal (failed or succeeded)
